@@ -121,3 +121,18 @@ pub open spec fn aspecs_size(v: RView, p: int) -> nat
     if p >= v.len || aspec_end_marker(aspec_at(v, p)) || aspec_size(v, p) == 0 || p + aspec_size(v, p) > v.len { aspec_size(v, p) }
     else { aspec_size(v, p) + aspecs_size(v, p + aspec_size(v, p)) }
 }
+
+/// the list seen from a later read position of the same window is the list at the shifted offset
+pub proof fn lemma_aspecs_shift(v: RView, w: RView, p: int)
+    requires within(v, w), p >= 0
+    ensures aspecs(w, p) == aspecs(v, w.start - v.start + p), aspecs_size(w, p) == aspecs_size(v, w.start - v.start + p)
+    decreases w.len - p
+{
+    let q = w.start - v.start;
+    assert(aspec_at(w, p) == aspec_at(v, q + p));
+    assert(aspec_size(w, p) == aspec_size(v, q + p));
+    if p >= w.len || aspec_end_marker(aspec_at(w, p)) || aspec_size(w, p) == 0 || p + aspec_size(w, p) > w.len {
+    } else {
+        lemma_aspecs_shift(v, w, p + aspec_size(w, p));
+    }
+}
